@@ -217,7 +217,7 @@ def ob_tx_write(ex, nchunks=2):
         for s in states:
             ln = ex.fresh(f"chunk{i}_len")
             s.pc += [ln >= 0, ln <= (1 << 40)]
-            s.meta.setdefault("chunk_lens", []).append(ln)
+            s.meta["chunk_lens"] = list(s.meta.get("chunk_lens", [])) + [ln]
             data = VOpaque("bytes", ("slice", ("chunk", i), z3.IntVal(0), ln))
             ex.start(s, fn, [txref, VRef(s.alloc(data))])
             for f in ex.run(s):
@@ -280,10 +280,19 @@ def ob_tx_write(ex, nchunks=2):
             for seqname, seq in (("hasher", hashed), ("writer", written)):
                 pos = {}
                 okc = []
+                order_ok = True
+                last_chunk = -1
                 for d in seq:
                     b = str(d[1])
                     okc.append(d[2] == pos.get(b, z3.IntVal(0)))
                     pos[b] = pos.get(b, z3.IntVal(0)) + d[3]
+                    idx = d[1][1] if isinstance(d[1], tuple) and len(d[1]) == 2 and isinstance(d[1][1], int) else None
+                    if idx is not None:
+                        # bytes of a later write call must never precede bytes of an earlier one
+                        # (empty slices carry no bytes and may appear anywhere)
+                        if idx < last_chunk:
+                            okc.append(d[3] == 0)
+                        last_chunk = max(last_chunk, idx)
                 posts[f"C18 {seqname} stream is the chunks in order without gaps"] = z3.And(okc) if okc else z3.BoolVal(True)
         posts["C18 recorded size == total length"] = t.fields[4].t == want
         for lab, post in posts.items():
@@ -294,6 +303,9 @@ def ob_tx_write(ex, nchunks=2):
                 continue
             r, m = ex.model_of(f.pc, z3.Not(post))
             if r == z3.sat:
+                import os
+                if os.environ.get("VERIF_DEBUG"):
+                    print("DEBUG hashed", hashed, "written", written, "lens", lens, "th", th, "want", want)
                 cex = {"chunk_lens": [m.eval(x, model_completion=True).as_long() for x in lens]}
                 return Obligation(name, ["C18"], "violated", time.time() - t0, "post-condition fails: " + lab, cex, ex.queries - q0, len(states))
     if not states:
